@@ -1050,6 +1050,558 @@ Proof.
   split; [apply slide_eff_own; exact H1 | auto].
 Qed.
 
+(** * Assignment through _InheritsDimensions._set_dimension (slide, layout and notes-slide
+      placeholders): [set_dim].  Structural lemmas for the two loops, a closed form of the
+      accepted case, then the statements used in props/C13.v *)
+Lemma set_attr_put a v s :
+  set_attr a v s = if coord_ok a v then (put a v s, Ok tt) else (s, Err ValueErr).
+Proof. reflexivity. Qed.
+
+Lemma attr_eqb_eq a b : attr_eqb a b = true <-> a = b.
+Proof. destruct a, b; cbn; split; intros H; try reflexivity; try discriminate. Qed.
+
+Lemma attr_eqb_neq a b : attr_eqb a b = false <-> a <> b.
+Proof. destruct a, b; cbn; split; intros H; try reflexivity; try discriminate; try congruence. Qed.
+
+Lemma in_dim_order b : In b dim_order.
+Proof. destruct b; cbn; auto. Qed.
+
+(** the list comprehension: which entries it holds *)
+Lemma collect_inh_ok inh a s : forall bs l,
+  collect_inh inh a s bs = Ok l ->
+  (forall b, In b bs -> b <> a -> own b s = None -> exists w, inh b = Ok w /\ In (b, w) l) /\
+  (forall b w, In (b, w) l -> In b bs /\ b <> a /\ own b s = None /\ inh b = Ok w).
+Proof.
+  induction bs as [|b0 bs IH]; intros l; cbn [collect_inh].
+  - intros H; inversion H; subst. split; [intros b []|intros b w []].
+  - destruct (attr_eqb b0 a) eqn:Ea; cbn [negb andb].
+    + apply attr_eqb_eq in Ea. subst b0. intros H. destruct (IH l H) as [H1 H2]. split.
+      * intros b [->|Hin] Hne Ho; [congruence|]. apply H1; auto.
+      * intros b w Hin. destruct (H2 b w Hin) as [? ?]. split; [right; auto|auto].
+    + apply attr_eqb_neq in Ea. destruct (own b0 s) as [x|] eqn:Eo.
+      * intros H. destruct (IH l H) as [H1 H2]. split.
+        -- intros b [->|Hin] Hne Ho; [congruence|]. apply H1; auto.
+        -- intros b w Hin. destruct (H2 b w Hin) as [? ?]. split; [right; auto|auto].
+      * destruct (inh b0) as [w0|e0] eqn:Ei; cbn [bind]; [|discriminate].
+        destruct (collect_inh inh a s bs) as [r|e1] eqn:Ec; cbn [bind]; [|discriminate].
+        intros H; inversion H; subst l. destruct (IH r eq_refl) as [H1 H2]. split.
+        -- intros b [->|Hin] Hne Ho.
+           ++ exists w0. split; [exact Ei|left; reflexivity].
+           ++ destruct (H1 b Hin Hne Ho) as [w [Hw Hin']]. exists w. split; [exact Hw|right; exact Hin'].
+        -- intros b w [Heq|Hin].
+           ++ inversion Heq; subst. repeat split; auto. left; reflexivity.
+           ++ destruct (H2 b w Hin) as [? ?]. split; [right; auto|auto].
+Qed.
+
+Lemma collect_inh_err inh a s : forall bs e,
+  collect_inh inh a s bs = Err e ->
+  exists b, In b bs /\ b <> a /\ own b s = None /\ inh b = Err e.
+Proof.
+  induction bs as [|b0 bs IH]; intros e; cbn [collect_inh]; [discriminate|].
+  destruct (attr_eqb b0 a) eqn:Ea; cbn [negb andb].
+  - intros H. destruct (IH e H) as [b [? ?]]. exists b. split; [right; auto|auto].
+  - apply attr_eqb_neq in Ea. destruct (own b0 s) as [x|] eqn:Eo.
+    + intros H. destruct (IH e H) as [b [? ?]]. exists b. split; [right; auto|auto].
+    + destruct (inh b0) as [w0|e0] eqn:Ei; cbn [bind].
+      * destruct (collect_inh inh a s bs) as [r|e1] eqn:Ec; cbn [bind]; [discriminate|].
+        intros H; inversion H; subst e1. destruct (IH e eq_refl) as [b [? ?]]. exists b. split; [right; auto|auto].
+      * intros H; inversion H; subst e0. exists b0. repeat split; auto. left; reflexivity.
+Qed.
+
+Lemma collect_inh_total inh a s : forall bs,
+  (forall b, In b bs -> b <> a -> own b s = None -> exists w, inh b = Ok w) ->
+  exists l, collect_inh inh a s bs = Ok l.
+Proof.
+  induction bs as [|b0 bs IH]; intros H; cbn [collect_inh]; [eexists; reflexivity|].
+  destruct IH as [l Hl]; [intros b Hin; apply H; right; exact Hin|].
+  destruct (attr_eqb b0 a) eqn:Ea; cbn [negb andb]; [exists l; exact Hl|].
+  apply attr_eqb_neq in Ea. destruct (own b0 s) as [x|] eqn:Eo; [exists l; exact Hl|].
+  destruct (H b0 (or_introl eq_refl) Ea Eo) as [w Hw]. rewrite Hw, Hl. cbn [bind]. eexists; reflexivity.
+Qed.
+
+(** the for-loop *)
+Lemma apply_inh_ok : forall l s s',
+  apply_inh l s = (s', Ok tt) -> forall b x, In (b, Some x) l -> coord_ok b x = true.
+Proof.
+  induction l as [|[b0 [x0|]] l IH]; intros s s'; cbn [apply_inh].
+  - intros _ b x [].
+  - rewrite set_attr_put. destruct (coord_ok b0 x0) eqn:E.
+    + intros H b x [Heq|Hin]; [inversion Heq; subst; exact E|]. eapply IH; eauto.
+    + discriminate.
+  - intros H b x [Heq|Hin]; [discriminate|]. eapply IH; eauto.
+Qed.
+
+Lemma apply_inh_total : forall l s,
+  (forall b x, In (b, Some x) l -> coord_ok b x = true) -> exists s', apply_inh l s = (s', Ok tt).
+Proof.
+  induction l as [|[b0 [x0|]] l IH]; intros s H; cbn [apply_inh].
+  - eexists; reflexivity.
+  - rewrite set_attr_put, (H b0 x0 (or_introl eq_refl)). apply IH. intros b x Hin. apply H. right; exact Hin.
+  - apply IH. intros b x Hin. apply H. right; exact Hin.
+Qed.
+
+Lemma apply_inh_err : forall l s s' e,
+  apply_inh l s = (s', Err e) ->
+  exists pre b w post, l = pre ++ (b, Some w) :: post /\ apply_inh pre s = (s', Ok tt) /\
+                       coord_ok b w = false /\ e = ValueErr.
+Proof.
+  induction l as [|[b0 [x0|]] l IH]; intros s s' e; cbn [apply_inh]; [discriminate| |].
+  - rewrite set_attr_put. destruct (coord_ok b0 x0) eqn:E.
+    + intros H. destruct (IH _ _ _ H) as [pre [b [w [post [-> [Hp [Hc He]]]]]]].
+      exists ((b0, Some x0) :: pre), b, w, post. split; [reflexivity|]. split; [|auto].
+      cbn [apply_inh]. rewrite set_attr_put, E. exact Hp.
+    + intros H; inversion H; subst. exists [], b0, x0, l. repeat split; auto.
+  - intros H. destruct (IH _ _ _ H) as [pre [b [w [post [-> [Hp [Hc He]]]]]]].
+    exists ((b0, None) :: pre), b, w, post. split; [reflexivity|]. split; [exact Hp|auto].
+Qed.
+
+Lemma put_meta a v s : s_ph (put a v s) = s_ph s /\ s_id (put a v s) = s_id s /\
+  s_name (put a v s) = s_name s /\ s_txbody (put a v s) = s_txbody s.
+Proof. unfold put. cbn. auto. Qed.
+
+Lemma apply_inh_meta : forall l s s' r, apply_inh l s = (s', r) ->
+  s_ph s' = s_ph s /\ s_id s' = s_id s /\ s_name s' = s_name s /\ s_txbody s' = s_txbody s.
+Proof.
+  induction l as [|[b0 [x0|]] l IH]; intros s s' r; cbn [apply_inh].
+  - intros H; inversion H; subst; auto.
+  - rewrite set_attr_put. destruct (coord_ok b0 x0).
+    + intros H. destruct (IH _ _ _ H) as [H1 [H2 [H3 H4]]]. destruct (put_meta b0 x0 s) as [G1 [G2 [G3 G4]]].
+      repeat split; congruence.
+    + intros H; inversion H; subst; auto.
+  - apply IH.
+Qed.
+
+Definition plan (inh : attr -> res (option Z)) (a : attr) (v : Z) (s : shape) (b : attr) : option Z :=
+  if attr_eqb b a then Some v else
+  match own b s with
+  | Some _ => None
+  | None => match inh b with Ok (Some w) => Some w | _ => None end
+  end.
+Definition putopt (b : attr) (o : option Z) (s : shape) : shape :=
+  match o with Some w => put b w s | None => s end.
+Definition put_all (f : attr -> option Z) (s : shape) : shape :=
+  putopt AHeight (f AHeight) (putopt AWidth (f AWidth) (putopt ATop (f ATop) (putopt ALeft (f ALeft) s))).
+
+Lemma set_dim_closed inh a v s s' :
+  set_dim inh a v s = (s', Ok tt) -> s' = put_all (plan inh a v s) s.
+Proof.
+  unfold set_dim, plan, put_all.
+  destruct s as [i n p [[x y]|] [[w h]|] t]; destruct a;
+    cbn [collect_inh dim_order attr_eqb negb andb own option_map s_off s_ext fst snd];
+    repeat match goal with |- context [inh ?b] => destruct (inh b) as [[?|]|?] end;
+    cbn [bind apply_inh]; rewrite ?set_attr_put;
+    repeat match goal with
+           | |- context [coord_ok ?b ?w] => destruct (coord_ok b w); cbn [apply_inh]; rewrite ?set_attr_put
+           end;
+    intros H; try discriminate H; inversion H; reflexivity.
+Qed.
+
+Lemma own_put_all f s b :
+  own b (put_all f s) =
+  match f b with
+  | Some w => Some w
+  | None => match own b s with
+            | Some x => Some x
+            | None => match f (partner b) with Some _ => Some 0%Z | None => None end
+            end
+  end.
+Proof.
+  unfold put_all.
+  destruct s as [i n p [[x y]|] [[w h]|] t]; destruct b; cbn [partner];
+    destruct (f ALeft), (f ATop), (f AWidth), (f AHeight); reflexivity.
+Qed.
+
+Lemma put_all_meta f s : s_ph (put_all f s) = s_ph s /\ s_id (put_all f s) = s_id s /\
+  s_name (put_all f s) = s_name s /\ s_txbody (put_all f s) = s_txbody s.
+Proof.
+  unfold put_all. destruct (f ALeft), (f ATop), (f AWidth), (f AHeight); cbn; auto.
+Qed.
+
+Lemma own_partner_none b s : own b s = None -> own (partner b) s = None.
+Proof. destruct s as [i n p [[x y]|] [[w h]|] t]; destruct b; cbn; congruence. Qed.
+
+Lemma attr_eqb_refl a : attr_eqb a a = true.
+Proof. destruct a; reflexivity. Qed.
+
+Lemma set_dim_guard inh a v s s' : set_dim inh a v s = (s', Ok tt) -> dim_guard inh a v s.
+Proof.
+  unfold set_dim. destruct (collect_inh inh a s dim_order) as [l|e] eqn:Ec; [|discriminate].
+  rewrite set_attr_put. destruct (coord_ok a v) eqn:Ev; [|discriminate].
+  intros H. split; [exact Ev|]. intros b Hne Ho.
+  destruct (collect_inh_ok _ _ _ _ _ Ec) as [H1 _].
+  destruct (H1 b (in_dim_order b) Hne Ho) as [w [Hw Hin]]. exists w. split; [exact Hw|].
+  intros x ->. eapply apply_inh_ok; eauto.
+Qed.
+
+Lemma set_dim_accepts inh a v s : dim_guard inh a v s -> exists s', set_dim inh a v s = (s', Ok tt).
+Proof.
+  intros [Hv Hg]. unfold set_dim.
+  destruct (collect_inh_total inh a s dim_order) as [l Hl].
+  { intros b _ Hne Ho. destruct (Hg b Hne Ho) as [w [Hw _]]. eauto. }
+  rewrite Hl, set_attr_put, Hv. apply apply_inh_total.
+  intros b x Hin. destruct (collect_inh_ok _ _ _ _ _ Hl) as [_ H2].
+  destruct (H2 b (Some x) Hin) as [_ [Hne [Ho Hi]]].
+  destruct (Hg b Hne Ho) as [w [Hw Hc]]. rewrite Hi in Hw. inversion Hw; subst. apply Hc; reflexivity.
+Qed.
+
+Lemma set_dim_ok_iff inh a v s : (exists s', set_dim inh a v s = (s', Ok tt)) <-> dim_guard inh a v s.
+Proof. split; [intros [s' H]; eapply set_dim_guard; eauto | apply set_dim_accepts]. Qed.
+
+(** the state after an accepted assignment, dimension by dimension *)
+Lemma set_dim_ok inh a v s s' :
+  set_dim inh a v s = (s', Ok tt) ->
+  dim_guard inh a v s /\ own a s' = Some v /\
+  s_ph s' = s_ph s /\ s_id s' = s_id s /\ s_name s' = s_name s /\ s_txbody s' = s_txbody s /\
+  (forall b, b <> a ->
+     own b s' =
+     match own b s with
+     | Some x => Some x
+     | None =>
+         match inh b with
+         | Ok (Some w) => Some w
+         | _ => if attr_eqb (partner b) a then Some 0%Z
+                else match inh (partner b) with Ok (Some _) => Some 0%Z | _ => None end
+         end
+     end).
+Proof.
+  intros H. split; [eapply set_dim_guard; eauto|].
+  pose proof (set_dim_closed _ _ _ _ _ H) as ->.
+  destruct (put_all_meta (plan inh a v s) s) as [M1 [M2 [M3 M4]]].
+  split; [rewrite own_put_all; unfold plan; rewrite attr_eqb_refl; reflexivity|].
+  repeat (split; [assumption|]).
+  intros b Hne. rewrite own_put_all. unfold plan at 1.
+  apply attr_eqb_neq in Hne. rewrite Hne.
+  destruct (own b s) as [x|] eqn:Eo; [reflexivity|].
+  assert (Hp : plan inh a v s (partner b) =
+               if attr_eqb (partner b) a then Some v
+               else match inh (partner b) with Ok (Some w) => Some w | _ => None end).
+  { unfold plan. rewrite (own_partner_none _ _ Eo). reflexivity. }
+  destruct (inh b) as [[w|]|e]; [reflexivity| |]; rewrite Hp;
+    destruct (attr_eqb (partner b) a); try reflexivity;
+    destruct (inh (partner b)) as [[w'|]|e']; reflexivity.
+Qed.
+
+(** in terms of what the placeholder REPORTS *)
+Lemma set_dim_eff inh a v s s' :
+  set_dim inh a v s = (s', Ok tt) ->
+  eff_with inh a s' = Ok (Some v) /\
+  (forall b, b <> a -> exists w, eff_with inh b s = Ok w) /\
+  (forall b x, b <> a -> eff_with inh b s = Ok (Some x) -> eff_with inh b s' = Ok (Some x)) /\
+  (forall b, b <> a -> eff_with inh b s = Ok None ->
+     eff_with inh b s' =
+     Ok (if attr_eqb (partner b) a then Some 0%Z
+         else match eff_with inh (partner b) s with Ok (Some _) => Some 0%Z | _ => None end)).
+Proof.
+  intros H. destruct (set_dim_ok _ _ _ _ _ H) as [[_ Hg] [Ha [_ [_ [_ [_ Hb]]]]]].
+  split; [unfold eff_with; rewrite Ha; reflexivity|]. split; [|split].
+  - intros b Hne. unfold eff_with. destruct (own b s) as [x|] eqn:Eo; [eauto|].
+    destruct (Hg b Hne Eo) as [w [Hw _]]. eauto.
+  - intros b x Hne. unfold eff_with. rewrite (Hb b Hne).
+    destruct (own b s) as [y|] eqn:Eo; [auto|]. intros ->. reflexivity.
+  - intros b Hne. unfold eff_with. rewrite (Hb b Hne).
+    destruct (own b s) as [y|] eqn:Eo; [discriminate|]. intros Hi. rewrite Hi.
+    rewrite (own_partner_none _ _ Eo).
+    destruct (attr_eqb (partner b) a); [reflexivity|].
+    destruct (inh (partner b)) as [[w'|]|e']; try reflexivity; exact Hi.
+Qed.
+
+Lemma own_put_other a b v w s : b <> a -> own a s = Some v -> own a (put b w s) = Some v.
+Proof.
+  destruct s as [i n p [[x y]|] [[cx cy]|] t]; destruct a, b; cbn; intros Hne H;
+    try congruence; try discriminate.
+Qed.
+
+Lemma apply_inh_keeps_own a v : forall l s s',
+  apply_inh l s = (s', Ok tt) -> own a s = Some v ->
+  (forall b w, In (b, w) l -> b <> a) -> own a s' = Some v.
+Proof.
+  induction l as [|[b0 [x0|]] l IH]; intros s s'; cbn [apply_inh].
+  - intros H; inversion H; subst; auto.
+  - rewrite set_attr_put. destruct (coord_ok b0 x0); [|discriminate].
+    intros H Ho Hl. eapply IH; [exact H| |intros b w Hin; apply (Hl b w); right; exact Hin].
+    apply own_put_other; [apply (Hl b0 (Some x0)); left; reflexivity|exact Ho].
+  - intros H Ho Hl. eapply IH; eauto. intros b w Hin; apply (Hl b w); right; exact Hin.
+Qed.
+
+Lemma own_put_same a v s : own a (put a v s) = Some v.
+Proof. destruct s as [i n p [[x y]|] [[cx cy]|] t]; destruct a; reflexivity. Qed.
+
+(** every way an assignment through _set_dimension can fail *)
+Lemma set_dim_err inh a v s s' e :
+  set_dim inh a v s = (s', Err e) ->
+  (s' = s /\ exists b, b <> a /\ own b s = None /\ inh b = Err e) \/
+  (s' = s /\ e = ValueErr /\ coord_ok a v = false /\
+   forall b, b <> a -> own b s = None -> exists w, inh b = Ok w) \/
+  (e = ValueErr /\ coord_ok a v = true /\
+   exists pre b w post,
+     collect_inh inh a s dim_order = Ok (pre ++ (b, Some w) :: post) /\
+     b <> a /\ own b s = None /\ inh b = Ok (Some w) /\ coord_ok b w = false /\
+     apply_inh pre (put a v s) = (s', Ok tt) /\ own a s' = Some v /\
+     s_ph s' = s_ph s /\ s_id s' = s_id s /\ s_name s' = s_name s /\ s_txbody s' = s_txbody s).
+Proof.
+  unfold set_dim. destruct (collect_inh inh a s dim_order) as [l|e0] eqn:Ec.
+  - destruct (collect_inh_ok _ _ _ _ _ Ec) as [H1 H2].
+    rewrite set_attr_put. destruct (coord_ok a v) eqn:Ev.
+    + intros H. right; right.
+      destruct (apply_inh_err _ _ _ _ H) as [pre [b [w [post [-> [Hp [Hc ->]]]]]]].
+      split; [reflexivity|]. split; [reflexivity|].
+      exists pre, b, w, post.
+      destruct (H2 b (Some w)) as [_ [Hne [Ho Hi]]]; [apply in_or_app; right; left; reflexivity|].
+      split; [reflexivity|]. do 4 (split; [assumption|]). split; [exact Hp|].
+      split.
+      * eapply apply_inh_keeps_own; [exact Hp|apply own_put_same|].
+        intros b' w' Hin. apply (H2 b' w'). apply in_or_app; left; exact Hin.
+      * destruct (apply_inh_meta _ _ _ _ Hp) as [G1 [G2 [G3 G4]]].
+        destruct (put_meta a v s) as [P1 [P2 [P3 P4]]]. repeat split; congruence.
+    + intros H; inversion H; subst. right; left. repeat split; auto.
+      intros b Hne Ho. destruct (H1 b (in_dim_order b) Hne Ho) as [w [Hw _]]. eauto.
+  - intros H; inversion H; subst. left. split; [reflexivity|].
+    destruct (collect_inh_err _ _ _ _ _ Ec) as [b [_ Hb]]. exists b. exact Hb.
+Qed.
+
+(** a raising lookup wins over everything else, validation of the assigned value included,
+    and nothing is written *)
+Lemma set_dim_lookup_raises inh a v s b e :
+  b <> a -> own b s = None -> inh b = Err e ->
+  exists b' e', set_dim inh a v s = (s, Err e') /\ b' <> a /\ own b' s = None /\ inh b' = Err e'.
+Proof.
+  intros Hne Ho Hi. unfold set_dim.
+  destruct (collect_inh inh a s dim_order) as [l|e0] eqn:Ec.
+  - destruct (collect_inh_ok _ _ _ _ _ Ec) as [H1 _].
+    destruct (H1 b (in_dim_order b) Hne Ho) as [w [Hw _]]. congruence.
+  - destruct (collect_inh_err _ _ _ _ _ Ec) as [b' [_ Hb]]. exists b', e0. split; [reflexivity|exact Hb].
+Qed.
+
+Lemma set_dim_refused inh a v s :
+  coord_ok a v = false ->
+  (forall b, b <> a -> own b s = None -> exists w, inh b = Ok w) ->
+  set_dim inh a v s = (s, Err ValueErr).
+Proof.
+  intros Hv Hg. unfold set_dim.
+  destruct (collect_inh_total inh a s dim_order) as [l Hl]; [intros b _; apply Hg|].
+  rewrite Hl, set_attr_put, Hv. reflexivity.
+Qed.
+
+(** * the proxies *)
+Lemma slide_eff_with c b M L s : slide_eff c b M L s = eff_with (fun b => slide_inh c b M L s) b s.
+Proof. reflexivity. Qed.
+Lemma layout_eff_with c b M s : layout_eff c b M s = eff_with (fun b => layout_inh c b M s) b s.
+Proof. reflexivity. Qed.
+Lemma notes_eff_with b NM s : Ok (notes_eff b NM s) = eff_with (fun b => Ok (notes_inh b NM s)) b s.
+Proof. unfold notes_eff, eff_with. destruct (own b s); reflexivity. Qed.
+
+Lemma slide_inh_ph c b M L s s' : s_ph s' = s_ph s -> slide_inh c b M L s' = slide_inh c b M L s.
+Proof. unfold slide_inh. intros ->. reflexivity. Qed.
+Lemma layout_inh_ph c b M s s' : s_ph s' = s_ph s -> layout_inh c b M s' = layout_inh c b M s.
+Proof. unfold layout_inh. intros ->. reflexivity. Qed.
+Lemma notes_inh_ph b NM s s' : s_ph s' = s_ph s -> notes_inh b NM s' = notes_inh b NM s.
+Proof. unfold notes_inh. intros ->. reflexivity. Qed.
+
+Lemma shape_setter_ph inh a v s : is_ph s = true -> shape_setter inh a v s = set_dim (inh s) a v s.
+Proof. unfold shape_setter. intros ->. reflexivity. Qed.
+Lemma shape_setter_plain inh a v s : is_ph s = false -> shape_setter inh a v s = set_attr a v s.
+Proof. unfold shape_setter. intros ->. reflexivity. Qed.
+
+(** slide placeholder: after an accepted assignment it reports the assigned value, the other three
+    report exactly what they reported before (whenever they reported a value), none of them was
+    raising, and one that reported None now reports 0 exactly when its partner was written *)
+Lemma slide_set_keeps c M L a v s s' :
+  set_dim (fun b => slide_inh c b M L s) a v s = (s', Ok tt) ->
+  slide_eff c a M L s' = Ok (Some v) /\
+  s_ph s' = s_ph s /\ s_id s' = s_id s /\ s_name s' = s_name s /\ s_txbody s' = s_txbody s /\
+  (forall b, b <> a -> exists w, slide_eff c b M L s = Ok w) /\
+  (forall b x, b <> a -> slide_eff c b M L s = Ok (Some x) -> slide_eff c b M L s' = Ok (Some x)) /\
+  (forall b, b <> a -> slide_eff c b M L s = Ok None ->
+     slide_eff c b M L s' =
+     Ok (if attr_eqb (partner b) a then Some 0%Z
+         else match slide_eff c (partner b) M L s with Ok (Some _) => Some 0%Z | _ => None end)).
+Proof.
+  intros H. destruct (set_dim_ok _ _ _ _ _ H) as [_ [_ [P1 [P2 [P3 [P4 _]]]]]].
+  destruct (set_dim_eff _ _ _ _ _ H) as [E1 [E2 [E3 E4]]].
+  assert (Hs : forall b, slide_eff c b M L s' = eff_with (fun b => slide_inh c b M L s) b s').
+  { intros b. rewrite slide_eff_with. unfold eff_with. rewrite (slide_inh_ph _ _ _ _ _ _ P1). reflexivity. }
+  split; [rewrite Hs; exact E1|]. do 4 (split; [assumption|]).
+  split; [exact E2|]. split.
+  - intros b x Hne Hb. rewrite Hs. apply E3; assumption.
+  - intros b Hne Hb. rewrite Hs. apply E4; assumption.
+Qed.
+
+Lemma layout_set_keeps c M a v s s' :
+  set_dim (fun b => layout_inh c b M s) a v s = (s', Ok tt) ->
+  layout_eff c a M s' = Ok (Some v) /\
+  s_ph s' = s_ph s /\ s_id s' = s_id s /\ s_name s' = s_name s /\ s_txbody s' = s_txbody s /\
+  (forall b, b <> a -> exists w, layout_eff c b M s = Ok w) /\
+  (forall b x, b <> a -> layout_eff c b M s = Ok (Some x) -> layout_eff c b M s' = Ok (Some x)) /\
+  (forall b, b <> a -> layout_eff c b M s = Ok None ->
+     layout_eff c b M s' =
+     Ok (if attr_eqb (partner b) a then Some 0%Z
+         else match layout_eff c (partner b) M s with Ok (Some _) => Some 0%Z | _ => None end)).
+Proof.
+  intros H. destruct (set_dim_ok _ _ _ _ _ H) as [_ [_ [P1 [P2 [P3 [P4 _]]]]]].
+  destruct (set_dim_eff _ _ _ _ _ H) as [E1 [E2 [E3 E4]]].
+  assert (Hs : forall b, layout_eff c b M s' = eff_with (fun b => layout_inh c b M s) b s').
+  { intros b. rewrite layout_eff_with. unfold eff_with. rewrite (layout_inh_ph _ _ _ _ _ P1). reflexivity. }
+  split; [rewrite Hs; exact E1|]. do 4 (split; [assumption|]).
+  split; [exact E2|]. split.
+  - intros b x Hne Hb. rewrite Hs. apply E3; assumption.
+  - intros b Hne Hb. rewrite Hs. apply E4; assumption.
+Qed.
+
+Lemma notes_set_keeps NM a v s s' :
+  set_dim (fun b => Ok (notes_inh b NM s)) a v s = (s', Ok tt) ->
+  notes_eff a NM s' = Some v /\
+  s_ph s' = s_ph s /\ s_id s' = s_id s /\ s_name s' = s_name s /\ s_txbody s' = s_txbody s /\
+  (forall b x, b <> a -> notes_eff b NM s = Some x -> notes_eff b NM s' = Some x) /\
+  (forall b, b <> a -> notes_eff b NM s = None ->
+     notes_eff b NM s' =
+     if attr_eqb (partner b) a then Some 0%Z
+     else match notes_eff (partner b) NM s with Some _ => Some 0%Z | None => None end).
+Proof.
+  intros H. destruct (set_dim_ok _ _ _ _ _ H) as [_ [_ [P1 [P2 [P3 [P4 _]]]]]].
+  destruct (set_dim_eff _ _ _ _ _ H) as [E1 [_ [E3 E4]]].
+  assert (Hs : forall b, Ok (notes_eff b NM s') = eff_with (fun b => Ok (notes_inh b NM s)) b s').
+  { intros b. rewrite notes_eff_with. unfold eff_with. rewrite (notes_inh_ph _ _ _ _ P1). reflexivity. }
+  assert (Hinj : forall x y : option Z, @Ok (option Z) x = Ok y -> x = y) by (intros x y Hxy; inversion Hxy; reflexivity).
+  split; [apply Hinj; rewrite Hs; exact E1|]. do 4 (split; [assumption|]). split.
+  - intros b x Hne Hb. apply Hinj. rewrite Hs. apply E3; [assumption|]. rewrite <- notes_eff_with, Hb. reflexivity.
+  - intros b Hne Hb. apply Hinj. rewrite Hs, (E4 b Hne); [|rewrite <- notes_eff_with, Hb; reflexivity].
+    rewrite <- notes_eff_with. destruct (attr_eqb (partner b) a); [reflexivity|].
+    destruct (notes_eff (partner b) NM s); reflexivity.
+Qed.
+
+Lemma set_dim_unchanged inh a v s :
+  coord_ok a v = false \/ (exists b e, b <> a /\ own b s = None /\ inh b = Err e) ->
+  exists e, set_dim inh a v s = (s, Err e).
+Proof.
+  intros H. unfold set_dim. destruct (collect_inh inh a s dim_order) as [l|e0] eqn:Ec; [|eauto].
+  destruct H as [Hv|[b [e [Hne [Ho Hi]]]]].
+  - rewrite set_attr_put, Hv. eauto.
+  - destruct (collect_inh_ok _ _ _ _ _ Ec) as [H1 _].
+    destruct (H1 b (in_dim_order b) Hne Ho) as [w [Hw _]]. congruence.
+Qed.
+
+(** * which setter [step] uses *)
+Lemma step_set_slide c d s i a v sl sh :
+  nth_error (d_slides d) s = Some sl -> nth_error (sl_shapes sl) i = Some sh ->
+  step c d (Edit (TSlide s i) (ESet a v)) =
+  let '(sh', r) :=
+    if is_ph sh
+    then set_dim (fun b => slide_inh c b (master_tree d (sl_layout sl)) (layout_tree d (sl_layout sl)) sh) a v sh
+    else set_attr a v sh in
+  (set_slides d (upd_nth s (fun x => mk_slide (sl_layout x) (upd_nth i (fun _ => sh') (sl_shapes sl)) (sl_notes x))
+                         (d_slides d)), r).
+Proof.
+  intros H1 H2. cbn [step]. rewrite H1. unfold edit_tree. rewrite H2.
+  unfold slide_setter, shape_setter. destruct (is_ph sh).
+  - destruct (set_dim _ a v sh) as [sh' r]. reflexivity.
+  - destruct (set_attr a v sh) as [sh' r]. reflexivity.
+Qed.
+
+Lemma step_set_notes c d s i a v sl nt sh :
+  nth_error (d_slides d) s = Some sl -> sl_notes sl = Some nt -> nth_error nt i = Some sh ->
+  step c d (Edit (TNotes s i) (ESet a v)) =
+  let '(sh', r) :=
+    if is_ph sh then set_dim (fun b => Ok (notes_inh b (the_notes_master d) sh)) a v sh else set_attr a v sh in
+  (set_slides d (upd_nth s (fun x => mk_slide (sl_layout x) (sl_shapes x) (Some (upd_nth i (fun _ => sh') nt)))
+                         (d_slides d)), r).
+Proof.
+  intros H1 H2 H3. cbn [step]. rewrite H1, H2. unfold edit_tree. rewrite H3.
+  unfold notes_setter, shape_setter. destruct (is_ph sh).
+  - destruct (set_dim _ a v sh) as [sh' r]. reflexivity.
+  - destruct (set_attr a v sh) as [sh' r]. reflexivity.
+Qed.
+
+Lemma step_set_layout c d l i a v L sh :
+  nth_error (d_layouts d) l = Some L -> nth_error (l_shapes L) i = Some sh ->
+  step c d (Edit (TLayout l i) (ESet a v)) =
+  let '(sh', r) :=
+    if is_ph sh then set_dim (fun b => layout_inh c b (nth (l_master L) (d_masters d) []) sh) a v sh
+    else set_attr a v sh in
+  (set_layouts d (upd_nth l (fun x => mk_layout (l_master x) (upd_nth i (fun _ => sh') (l_shapes L))) (d_layouts d)), r).
+Proof.
+  intros H1 H2. cbn [step]. rewrite H1. unfold edit_tree. rewrite H2.
+  unfold layout_setter, shape_setter. destruct (is_ph sh).
+  - destruct (set_dim _ a v sh) as [sh' r]. reflexivity.
+  - destruct (set_attr a v sh) as [sh' r]. reflexivity.
+Qed.
+
+(** master and notes-master placeholders are MasterPlaceholder objects: the plain element setter *)
+Lemma step_set_masters c d a v :
+  (forall m i M sh, nth_error (d_masters d) m = Some M -> nth_error M i = Some sh ->
+     step c d (Edit (TMaster m i) (ESet a v)) =
+     (set_masters d (upd_nth m (fun _ => upd_nth i (fun _ => fst (set_attr a v sh)) M) (d_masters d)),
+      snd (set_attr a v sh))) /\
+  (forall i sh, nth_error (the_notes_master d) i = Some sh ->
+     step c d (Edit (TNotesMaster i) (ESet a v)) =
+     (set_notes_master (ensure_notes_master d)
+        (Some (upd_nth i (fun _ => fst (set_attr a v sh)) (the_notes_master d))),
+      snd (set_attr a v sh))).
+Proof.
+  split.
+  - intros m i M sh H1 H2. cbn [step]. rewrite H1. unfold edit_tree. rewrite H2.
+    destruct (set_attr a v sh) as [sh' r]. reflexivity.
+  - intros i sh H2. cbn [step]. unfold edit_tree. rewrite H2.
+    destruct (set_attr a v sh) as [sh' r]. reflexivity.
+Qed.
+
+Lemma upd_nth_id {A} (f : A -> A) : forall l n x, nth_error l n = Some x -> f x = x -> upd_nth n f l = l.
+Proof.
+  induction l as [|y l IH]; intros [|n] x; cbn; try discriminate.
+  - intros H Hf; inversion H; subst. rewrite Hf. reflexivity.
+  - intros H Hf. rewrite (IH n x H Hf). reflexivity.
+Qed.
+
+(** deck level, slide placeholder: an accepted assignment changes the reported value of that one
+    dimension of that one shape; every other reported value of the deck is what it was *)
+Lemma step_set_slide_geom c d s i a v sl sh d' :
+  nth_error (d_slides d) s = Some sl -> nth_error (sl_shapes sl) i = Some sh -> is_ph sh = true ->
+  step c d (Edit (TSlide s i) (ESet a v)) = (d', Ok tt) ->
+  exists sl' sh',
+    nth_error (d_slides d') s = Some sl' /\ nth_error (sl_shapes sl') i = Some sh' /\
+    sl_layout sl' = sl_layout sl /\ sl_notes sl' = sl_notes sl /\
+    length (sl_shapes sl') = length (sl_shapes sl) /\
+    (forall j, j <> i -> nth_error (sl_shapes sl') j = nth_error (sl_shapes sl) j) /\
+    length (d_slides d') = length (d_slides d) /\
+    (forall t, t <> s -> nth_error (d_slides d') t = nth_error (d_slides d) t) /\
+    d_layouts d' = d_layouts d /\ d_masters d' = d_masters d /\
+    d_notes_master d' = d_notes_master d /\ d_orphans d' = d_orphans d /\
+    s_ph sh' = s_ph sh /\ s_id sh' = s_id sh /\ s_name sh' = s_name sh /\ s_txbody sh' = s_txbody sh /\
+    slide_geom c d' sl' a sh' = Ok (Some v) /\
+    (forall b, b <> a -> exists w, slide_geom c d sl b sh = Ok w) /\
+    (forall b x, b <> a -> slide_geom c d sl b sh = Ok (Some x) -> slide_geom c d' sl' b sh' = Ok (Some x)).
+Proof.
+  intros H1 H2 Hph. rewrite (step_set_slide c d s i a v sl sh H1 H2), Hph.
+  destruct (set_dim _ a v sh) as [sh' r] eqn:E. intros H; inversion H; subst d' r; clear H.
+  destruct (slide_set_keeps _ _ _ _ _ _ _ E) as [K1 [K2 [K3 [K4 [K5 [K6 [K7 _]]]]]]].
+  exists (mk_slide (sl_layout sl) (upd_nth i (fun _ => sh') (sl_shapes sl)) (sl_notes sl)), sh'.
+  cbn [d_slides set_slides d_layouts d_masters d_notes_master d_orphans sl_layout sl_shapes sl_notes].
+  split; [rewrite nth_error_upd_nth_same, H1; reflexivity|].
+  split; [rewrite nth_error_upd_nth_same, H2; reflexivity|].
+  split; [reflexivity|]. split; [reflexivity|].
+  split; [apply length_upd_nth|].
+  split; [intros j Hj; apply nth_error_upd_nth_other; congruence|].
+  split; [apply length_upd_nth|].
+  split; [intros t Ht; apply nth_error_upd_nth_other; congruence|].
+  do 4 (split; [reflexivity|]). do 4 (split; [assumption|]).
+  unfold slide_geom, layout_tree, master_tree.
+  cbn [d_slides set_slides d_layouts d_masters sl_layout].
+  split; [exact K1|]. split; [exact K6|exact K7].
+Qed.
+
+Lemma step_set_slide_unchanged c d s i a v sl sh :
+  nth_error (d_slides d) s = Some sl -> nth_error (sl_shapes sl) i = Some sh -> is_ph sh = true ->
+  coord_ok a v = false \/
+  (exists b e, b <> a /\ own b sh = None /\
+     slide_inh c b (master_tree d (sl_layout sl)) (layout_tree d (sl_layout sl)) sh = Err e) ->
+  exists e, step c d (Edit (TSlide s i) (ESet a v)) = (d, Err e).
+Proof.
+  intros H1 H2 Hph Hc. rewrite (step_set_slide c d s i a v sl sh H1 H2), Hph.
+  destruct (set_dim_unchanged _ a v sh Hc) as [e ->]. exists e. f_equal.
+  rewrite (upd_nth_id _ _ _ sl H1).
+  - destruct d; reflexivity.
+  - cbv beta. rewrite (upd_nth_id (fun _ => sh) _ _ sh H2 eq_refl). destruct sl; reflexivity.
+Qed.
+
 Lemma partial_maps {B} (tbl : list (N * B)) t :
   In t all_ph_types -> (dict_get t tbl = Err KeyErr <-> In t (missing tbl)).
 Proof. intros Hin. rewrite dict_get_keyerr_iff, missing_spec. tauto. Qed.
